@@ -232,7 +232,9 @@ func (e *Engine) Load(name string) (*Template, error) {
 			// If auto-reload is enabled, check if the template has been modified
 			needsReload := false
 
-			if tmpl.loader != nil {
+			// Only a template that was loaded under this name can be stale: one that was
+			// registered under another name (RegisterTemplate) is not in the loader under it
+			if tmpl.loader != nil && tmpl.name == name {
 				// Check if the loader supports timestamp checking
 				if tsLoader, ok := tmpl.loader.(TimestampAwareLoader); ok {
 					// Get the current modification time
